@@ -19,3 +19,15 @@ package fp
 //@   tag intersect
 //@   ensures !Panics(Set[V]{}.SubsetOf(o)) && Set[V]{}.SubsetOf(o)
 //@   tag subsetOfAnything
+
+// fp.Map wrapper (map.go): the zero value is the empty map
+//@ lemma mapZeroValue[K, V any](k K, f func(Option[V]) Option[V])
+//@   prop C03
+//@   ensures Map[K, V]{}.Size() == 0 && Map[K, V]{}.IsEmpty() && !Map[K, V]{}.NonEmpty() && !Map[K, V]{}.Get(k).IsDefined() && !Map[K, V]{}.Contains(k)
+//@   tag observers
+//@   ensures !Map[K, V]{}.Iterator().HasNext() && !Map[K, V]{}.Keys().HasNext() && !Map[K, V]{}.Values().HasNext()
+//@   tag iteratorsEmpty
+//@   ensures !Panics(Map[K, V]{}.Removed(k)) && Map[K, V]{}.Removed(k).Size() == 0
+//@   tag removed
+//@   ensures !f(None[V]()).IsDefined() ==> Map[K, V]{}.UpdatedWith(k, f).Size() == 0 && !Map[K, V]{}.UpdatedWith(k, f).Contains(k)
+//@   tag updatedWithNoneStaysEmpty
